@@ -245,6 +245,151 @@ def run_entry(ctx, exe, drv):
     excluded_point(ctx, exe, drv, K)
 
 
+# ---------------------------------------------------------------------------------------------
+# part B: the real AsyncFileAppender under threads; oracle + replay of the recorded rounds
+def appender_configs(ctx):
+    rng = ctx.rng
+    cfgs = []
+    fixed = [
+        dict(threads=1, ps=64, cap=64, files=1, rot=0, n=20),
+        dict(threads=2, ps=32, cap=4, files=2, rot=3, n=30),
+        dict(threads=4, ps=24, cap=2, files=3, rot=2, n=40),
+        dict(threads=4, ps=24, cap=1024, files=1, rot=0, n=400, slow=500),    # backlog: batches > IOV_MAX iovecs
+        dict(threads=2, ps=32, cap=1024, files=2, rot=1, n=600, slow=300),    # rotation every round + backlog
+        dict(threads=2, ps=4096, cap=16, files=1, rot=4, n=12),
+        dict(threads=1, ps=128, cap=1, files=2, rot=0, n=25),
+    ]
+    for c in fixed:
+        c["seed"] = rng.randrange(1, 1 << 30)
+        cfgs.append(c)
+    n_rand = 9 if ctx.quick else 140
+    for _ in range(n_rand):
+        c = dict(threads=rng.choice([1, 2, 3, 4]), ps=rng.choice([24, 32, 32, 64, 128, 40, 256]),
+                 cap=rng.choice([1, 2, 4, 16, 64, 256, 1024]), files=rng.choice([1, 1, 2, 3]),
+                 rot=rng.choice([0, 0, 1, 2, 3, 7]), n=rng.choice([5, 20, 60, 150]), seed=rng.randrange(1, 1 << 30))
+        if rng.random() < 0.3:
+            c["slow"] = rng.choice([10, 30, 60])
+        cfgs.append(c)
+    return ["run " + " ".join("%s=%d" % kv for kv in c.items()) for c in cfgs]
+
+
+def parse_blocks(text):
+    blocks, cur = [], None
+    for line in text.splitlines():
+        if line.startswith("RUN "):
+            cur = {"cfg": line[4:], "T": [], "O": [], "stats": "", "oracle": None}
+        elif cur is None:
+            continue
+        elif line.startswith("T "):
+            cur["T"].append(line[2:])
+        elif line.startswith("O "):
+            cur["O"].append(line[2:])
+        elif line.startswith("STATS "):
+            cur["stats"] = line[6:]
+        elif line.startswith("ORACLE"):
+            cur["oracle"] = line[6:].strip()
+        elif line == "END":
+            blocks.append(cur)
+            cur = None
+    return blocks, cur
+
+
+def load_appender_corpus():
+    out = []
+    d = VERIF / "corpus" / "C20"
+    if d.exists():
+        for f in sorted(d.glob("*.txt")):
+            lines = [l.strip() for l in f.read_text().splitlines() if l.strip() and not l.startswith("#")]
+            if lines and lines[0] == "mode=appender":
+                out += [l for l in lines[1:] if l.startswith("run ")]
+    return out
+
+
+def run_appender(ctx, exe, drv):
+    cfgs = load_appender_corpus()
+    if cfgs:
+        ctx.notes.append("corpus runs first (appender mode): %d" % len(cfgs))
+    cfgs += appender_configs(ctx)
+    dist = {"runs": 0, "threads": {}, "entries": 0, "rounds": 0, "rotations": 0, "entries_spanning_two_writev": 0,
+            "max_batch": 0, "max_writev_elems": 0, "trace_lines_replayed": 0, "oracle_failures": 0, "divergences": 0,
+            "capacities": {}}
+    nproc = max(1, min(NPROC, len(cfgs)))
+    groups = [cfgs[i::nproc] for i in range(nproc)]
+
+    def one(group):
+        try:
+            r = subprocess.run([str(exe), "appender"], input="\n".join(group) + "\n", capture_output=True, text=True,
+                               timeout=280)
+            return group, r.stdout, r.returncode, r.stderr
+        except subprocess.TimeoutExpired as e:
+            return group, (e.stdout or b"").decode() if isinstance(e.stdout, bytes) else (e.stdout or ""), -999, "timeout"
+
+    nontrivial = set()
+    with concurrent.futures.ThreadPoolExecutor(max_workers=nproc) as ex:
+        results = list(ex.map(one, groups))
+    for group, out, rc, err in results:
+        blocks, partial = parse_blocks(out)
+        if rc != 0 or len(blocks) != len(group):
+            bad = group[len(blocks)] if len(blocks) < len(group) else group[-1]
+            text = "mode=appender\n%s\n# harness rc=%s\n# %s" % (bad, rc, err[-2500:].replace("\n", "\n# "))
+            dist["oracle_failures"] += 1
+            ctx.failing_input("crash:appender:" + ("hang" if rc == -999 else "abort"), text)
+        for b in blocks:
+            dist["runs"] += 1
+            st = dict(kv.split("=") for kv in b["stats"].split())
+            cfg = dict(kv.split("=") for kv in b["cfg"].split()[1:])
+            dist["threads"][cfg["threads"]] = dist["threads"].get(cfg["threads"], 0) + 1
+            dist["capacities"][st.get("capacity", "?")] = dist["capacities"].get(st.get("capacity", "?"), 0) + 1
+            dist["entries"] += int(st.get("entries", 0))
+            dist["rounds"] += int(st.get("rounds", 0))
+            dist["rotations"] += int(st.get("rotations", 0))
+            dist["entries_spanning_two_writev"] += int(st.get("spans", 0))
+            dist["max_batch"] = max(dist["max_batch"], int(st.get("maxbatch", 0)))
+            dist["max_writev_elems"] = max(dist["max_writev_elems"], int(st.get("maxcall", 0)))
+            if int(cfg["threads"]) >= 2 and int(st.get("entries", 0)) >= 20:
+                nontrivial.add(sha(b["cfg"]))
+            if b["oracle"] != "ok":
+                dist["oracle_failures"] += 1
+                m = re.search(r"!ORACLE\((\w+)", b["oracle"] or "")
+                ctx.failing_input("oracle:appender:%s" % (m.group(1) if m else "unknown"),
+                                  "mode=appender\n%s\n# %s\n# %s" % (b["cfg"], b["oracle"], b["stats"]))
+                continue
+            # replay the recorded rounds through the model's step function
+            mo, mrc, merr = ctx.run_lines(drv, ["reset"] + b["T"])
+            mo = mo[1:]
+            dist["trace_lines_replayed"] += len(b["T"])
+            for i, (t, o) in enumerate(zip(b["T"], b["O"])):
+                got = mo[i] if i < len(mo) else "<no-output>"
+                if got != o:
+                    dist["divergences"] += 1
+                    cut = lambda l: l if len(l) < 400 else l[:200] + " ... " + l[-150:]
+                    ctx.broke("correspondence", "appender trace replay",
+                              "run %r: event %d %r: implementation %r, model %r" % (b["cfg"], i, cut(t), cut(o), cut(got)))
+                    break
+    ctx.cov["evaluations"] += dist["runs"]
+    ctx.cov["distribution"]["appender"] = dist
+    ctx.cov["distinct_nontrivial"] += len(nontrivial)
+    ctx.cov["samples"].append(cfgs[:3])
+    close_full_probe(ctx, exe)
+
+
+def close_full_probe(ctx, exe):
+    """close() while the queue is full: the stop marker is pushed with futex wait but nobody ever
+    wakes that queue (patches/C20-close-lost-wakeup.diff).  Liveness, not the safety text of C20:
+    recorded, not a violation."""
+    line = "run threads=1 ps=64 cap=2 files=1 rot=0 n=3 seed=1 drain=0 slow=400"
+    try:
+        r = subprocess.run([str(exe), "appender"], input=line + "\n", capture_output=True, text=True, timeout=8)
+        blocks, _ = parse_blocks(r.stdout)
+        res = "returned; oracle %s" % (blocks[0]["oracle"] if blocks else "rc=%d" % r.returncode)
+        if blocks and blocks[0]["oracle"] != "ok":
+            ctx.failing_input("oracle:appender:close-full", "mode=appender\n%s\n# %s" % (line, blocks[0]["oracle"]))
+    except subprocess.TimeoutExpired:
+        res = "HANG: close() never returned within 8 s (lost wake-up; candidate repair patches/C20-close-lost-wakeup.diff)"
+        ctx.notes.append("close() on a full queue hangs on this tree: " + line)
+    ctx.cov["close_full_queue"] = {"input": line, "result": res}
+
+
 def run(ctx):
     ctx.cov["trusted_base"] += [
         "libstdc++ basic_streambuf::xsputn/sputc are transcribed by hand (Stream.sputnLoop / Buf.putc); LogStreamBuffer overrides only overflow and sync",
@@ -257,8 +402,11 @@ def run(ctx):
         "a zero-size entry handed to AsyncFileAppender::write acts as the stop marker and is outside the stated domain",
     ]
     ctx.gen(["log"])
+    ctx.log("translator done")
     ctx.lake_build(["Babylon.Properties.C20"])
+    ctx.log("lake build done")
     ctx.audit("Babylon.Properties.C20")
+    ctx.log("audit done")
     if not ctx.quick:
         ctx.leanchecker(["Babylon.Log.Entry", "Babylon.Properties.C20"])
     drv = ctx.driver("drv_C20")
@@ -270,14 +418,25 @@ def run(ctx):
         return
     ctx.cov["distribution"] = {}
     ctx.cov["samples"] = []
+    ctx.log("harness + driver built")
     run_entry(ctx, exe, drv)
+    ctx.log("part A correspondence done")
+    run_appender(ctx, exe, drv)
+    ctx.log("part B runs done")
     ctx.cov["rule"] = (
         "part A (E-SEQ): cases = one recording allocator of page size ps + a sequence of entries streamed through ONE LogStreamBuffer "
         "(begin; chunked sputn / sputc / pubsync; end; discard). Total lengths: every length 0..(K+2E+2)*ps for ps in {24,32} as a single "
         "sputn and under random chunkings; boundary lengths {0,1,ps,2ps,(K-1)ps,K*ps,(K+1)ps,(K-1+jE)ps,(K+jE)ps,(K-1+jE)ps+ps/2} each +-1 for "
         "ps in {64,128,4096} and a sample of {40,48,56,72,256,512,1024}; random totals. Chunk styles: single sputn, page-sized, "
         "page-size+-1, tiny, mixed with sputc and pubsync, zero-length sputn. A case is counted non-trivial when the entry needs a "
-        "page table (total > K*ps); distinct by (ps, op lines).")
+        "page table (total > K*ps); distinct by (ps, op lines). "
+        "part B (sampling of OS schedules, not proof): runs of the real AsyncFileAppender with 1-4 logging threads x n entries "
+        "(lengths around ps, K*ps+-1, (K-1+E)*ps+-1, random up to (K+2E+2)*ps, header-only), queue capacity 1..1024, 1-3 memfd-backed "
+        "recording FileObjects, rotation every 0/1/2/3/5/7 descriptor checks, optional slow first round to build a backlog (batches "
+        "of more than IOV_MAX iovecs, entries spanning two writev calls), close() after the writers joined and the queue drained; "
+        "oracle: every entry exactly once, intact, within one descriptor, per-thread order (per file and across rounds), all pages "
+        "returned, no bad free, writev <= IOV_MAX; then the recorded rounds (writev/deallocate/descriptor-check calls) are replayed "
+        "event by event through App.step and must equal the model's flushes. Non-trivial run: >= 2 threads and >= 20 entries.")
     ctx.cov["traces_validated_against_impl"] = ctx.cov["evaluations"]
 
 
@@ -292,6 +451,33 @@ def replay(ctx, path):
     if exe is None or drv is None:
         print(log[-2000:])
         return 1
+    if mode == "appender":
+        bad = False
+        for line in lines:
+            try:
+                r = subprocess.run([str(exe), "appender"], input=line + "\n", capture_output=True, text=True, timeout=120)
+            except subprocess.TimeoutExpired:
+                print("%s\n   HANG (no result within 120 s)" % line)
+                bad = True
+                continue
+            blocks, _ = parse_blocks(r.stdout)
+            if r.returncode != 0 or not blocks:
+                print("%s\n   harness rc=%d\n%s" % (line, r.returncode, r.stderr[-3000:]))
+                bad = True
+                continue
+            b = blocks[0]
+            print("%s\n   %s\n   oracle: %s" % (line, b["stats"], b["oracle"]))
+            bad |= b["oracle"] != "ok"
+            mo, _, _ = ctx.run_lines(drv, ["reset"] + b["T"])
+            for i, (t, o) in enumerate(zip(b["T"], b["O"])):
+                got = mo[i + 1] if i + 1 < len(mo) else "<no-output>"
+                if got != o:
+                    print("   trace event %d %s\n      impl : %s\n      model: %s   <<<<" % (i, t[:200], o[:300], got[:300]))
+                    bad = True
+                    break
+            else:
+                print("   %d trace events accepted by the model" % len(b["T"]))
+        return 1 if bad else 0
     io, rc, err = ctx.run_lines(exe, ["reset"] + lines, [mode])
     mo, _, _ = ctx.run_lines(drv, ["reset"] + lines)
     bad = rc != 0
